@@ -140,14 +140,18 @@ Definition luks_safeb (b : bytes) : bool :=
   (592 <=? blen b) && beq (bslice 0 6 b) luks_magic && (be_at 6 2 b =? 1).
 
 Definition idx4 : list N := [0; 1; 2; 3].
-Definition pte_gpt_ok (b : bytes) (i : N) : bool :=
-  negb (pte_type (pte b i) =? 238) ||
-  ((i =? 0) && (bnth 1 (pte b i) =? 0) && (bnth 2 (pte b i) =? 2) && (bnth 3 (pte b i) =? 0) && (pte_lba (pte b i) =? 1) &&
-   forallb (fun j => (j =? 0) || (pte_type (pte b j) =? 0)) idx4).
+(* one partition table entry *)
+Definition boot_okb (e : bytes) : bool := (pte_boot e =? 0) || (pte_boot e =? 128).
+Definition is_ee (e : bytes) : bool := pte_type e =? 238.
+Definition nonzero (e : bytes) : bool := negb (pte_type e =? 0).
+Definition start_okb (e : bytes) : bool :=
+  (bnth 1 e =? 0) && (bnth 2 e =? 2) && (bnth 3 e =? 0) && (pte_lba e =? 1).
+Definition entry_okb (e : bytes) : bool := boot_okb e && (negb (is_ee e) || start_okb e).
 Definition mbr_table_okb (b : bytes) : bool :=
-  forallb (fun i => (pte_boot (pte b i) =? 0) || (pte_boot (pte b i) =? 128)) idx4 &&
-  existsb (fun i => negb (pte_type (pte b i) =? 0)) idx4 &&
-  forallb (pte_gpt_ok b) idx4.
+  forallb (fun j => entry_okb (pte b j)) idx4 &&
+  (negb (existsb (fun j => is_ee (pte b j)) idx4) ||
+   (nonzero (pte b 0) && negb (nonzero (pte b 1)) && negb (nonzero (pte b 2)) && negb (nonzero (pte b 3)))) &&
+  existsb (fun j => nonzero (pte b j)) idx4.
 Definition gpt_safeb (b : bytes) : bool :=
   (512 <=? blen b) && (le_at 510 2 b =? 43605) && negb ((bnth 16 b =? 2) && (bnth 21 b =? 248)) && mbr_table_okb b.
 
